@@ -2,6 +2,7 @@ from __future__ import annotations
 
 import logging
 import threading
+import weakref
 from typing import TYPE_CHECKING, Any, overload
 
 import claripy
@@ -88,11 +89,16 @@ class FullFrontend(ConstrainedFrontend):
         if len(self._to_add) > 0:
             self._add_constraints()
 
-        solver = self._tls.solver
         if self._solver_backend.reuse_z3_solver:
+            # The thread-wide solver object is shared by every frontend of this thread: if the last frontend that
+            # asserted its constraints on it was another one, fetch it again (which resets it) before adding ours.
+            owner = getattr(self._solver_backend._tls, "solver_owner", None)
+            if owner is None or owner() is not self:
+                self._tls.solver = self._solver_backend.solver(timeout=self.timeout, max_memory=self.max_memory)
+                self._solver_backend._tls.solver_owner = weakref.ref(self)
             # we must re-add all constraints
             self._add_constraints()
-        return solver
+        return self._tls.solver
 
     def _add_constraints(self):
         self._solver_backend.add(self._tls.solver, self.constraints, track=self._track)
